@@ -24,6 +24,10 @@ type manualCodec struct {
 	mu     sync.Mutex
 	out    []*jsonrpc2.Message
 	closed chan struct{}
+	// onWrite (optional, one-shot) runs inside the next WriteMessage, before it returns: what it
+	// injects reaches the reading loop while the writer is still between "request sent" and
+	// "waiting for the reply"
+	onWrite func()
 }
 
 func newManualCodec() *manualCodec {
@@ -40,8 +44,21 @@ func (c *manualCodec) ReadMessage() (*jsonrpc2.Message, error) {
 func (c *manualCodec) WriteMessage(m *jsonrpc2.Message) error {
 	c.mu.Lock()
 	c.out = append(c.out, m)
+	hook := c.onWrite
+	c.onWrite = nil
 	c.mu.Unlock()
+	if hook != nil {
+		hook()
+	}
 	return nil
+}
+
+// drained waits until the reading loop has taken and processed everything injected so far.
+func (c *manualCodec) drained() {
+	for t := 0; t < 4000 && len(c.in) > 0; t++ {
+		time.Sleep(50 * time.Microsecond)
+	}
+	time.Sleep(1500 * time.Microsecond)
 }
 func (c *manualCodec) Close() error       { close(c.closed); return nil }
 func (c *manualCodec) RemoteAddr() string { return "manual" }
@@ -87,6 +104,52 @@ func (m *mirror) clean() {
 	}
 }
 
+// deliver mirrors LDeliver: returns false when the transition is not enabled (channel full).
+func (m *mirror) deliver(id, p int) (int, bool) {
+	m.clean()
+	g := m.gen
+	if e, ok := m.pending[id]; ok {
+		g = e.gen
+	}
+	if _, full := m.bufs[[2]int{id, g}]; full {
+		return g, false
+	}
+	if _, ok := m.pending[id]; !ok {
+		m.pending[id] = &mirrorEntry{gen: m.gen, age: m.age}
+		m.gen++
+		m.age++
+	}
+	m.bufs[[2]int{id, g}] = p
+	return g, true
+}
+
+// register mirrors LRegister, receive mirrors LReceive (repaired rule).
+func (m *mirror) register(id int) {
+	m.clean()
+	if e, ok := m.pending[id]; ok {
+		e.waiting = true
+		m.wgen[id] = e.gen
+	} else {
+		m.pending[id] = &mirrorEntry{gen: m.gen, age: m.age, waiting: true}
+		m.wgen[id] = m.gen
+		m.gen++
+		m.age++
+	}
+	m.phase[id] = "waiting"
+}
+func (m *mirror) receive(id int) {
+	m.clean()
+	if e, ok := m.pending[id]; ok {
+		e.waiting = true
+		m.wgen[id] = e.gen
+	} else {
+		m.pending[id] = &mirrorEntry{gen: m.gen, age: m.age, waiting: true}
+		m.wgen[id] = m.gen
+		m.gen++
+		m.age++
+	}
+}
+
 func c14Scripted(ctx *Ctx, i int, rng *rand.Rand) {
 	limit, discard := 0, 0
 	if rng.Intn(3) != 0 {
@@ -116,6 +179,55 @@ func c14Scripted(ctx *Ctx, i int, rng *rand.Rand) {
 			c := &call{cancel: cancel, done: make(chan struct{})}
 			calls[id] = c
 			before := codec.written()
+			early := rng.Intn(3) == 0
+			var injDone chan struct{}
+			if early {
+				// the reply overtakes the caller: it is routed (followed by orphans and late replies
+				// that run the discard rule) while the call is between sending and receive()
+				m.register(id)
+				trace = append(trace, c14Label{"register", id, 0})
+				type inj struct{ id, p int }
+				var injs []inj
+				if rng.Intn(5) != 0 {
+					p := 1000*id + rng.Intn(1000)
+					if _, ok := m.deliver(id, p); ok {
+						injs = append(injs, inj{id, p})
+						trace = append(trace, c14Label{"deliver", id, p})
+					}
+				}
+				for j, nj := 0, rng.Intn(5); j < nj; j++ {
+					oid := 500 + rng.Intn(40) // ids no call ever uses: orphans
+					if rng.Intn(3) == 0 && nextID > 2 {
+						oid = 1 + rng.Intn(nextID-1) // or a reply for an earlier call (finished, cancelled or waiting)
+					}
+					if oid == id {
+						continue
+					}
+					p := 1000*oid + rng.Intn(1000)
+					if g, ok := m.deliver(oid, p); ok {
+						injs = append(injs, inj{oid, p})
+						trace = append(trace, c14Label{"deliver", oid, p})
+						if m.phase[oid] == "waiting" && m.wgen[oid] == g {
+							delete(m.bufs, [2]int{oid, m.wgen[oid]})
+							delete(m.pending, oid)
+							m.phase[oid] = "done"
+							trace = append(trace, c14Label{"wake", oid, 0})
+						}
+					}
+				}
+				injDone = make(chan struct{})
+				codec.mu.Lock()
+				codec.onWrite = func() {
+					defer close(injDone)
+					for _, x := range injs {
+						raw, _ := json.Marshal(x.p)
+						idRaw, _ := json.Marshal(x.id)
+						codec.in <- &jsonrpc2.Message{Response: &jsonrpc2.Response{Result: raw}, ID: idRaw, Version: "2.0"}
+						codec.drained() // one at a time: a woken call removes its entry before the next arrives
+					}
+				}
+				codec.mu.Unlock()
+			}
 			go func() {
 				var out int
 				err := r.Call(cctx, &out, "probe", id)
@@ -133,20 +245,20 @@ func c14Scripted(ctx *Ctx, i int, rng *rand.Rand) {
 				time.Sleep(50 * time.Microsecond)
 			}
 			pause()
-			// mirror
-			m.clean()
-			if e, ok := m.pending[id]; ok {
-				e.waiting = true
-				m.wgen[id] = e.gen
+			if early {
+				select { // the write (with its injections) has returned
+				case <-injDone:
+				case <-time.After(2 * time.Second):
+				}
+				time.Sleep(3 * time.Millisecond)
+				m.receive(id)
+				trace = append(trace, c14Label{"receive", id, 0})
 			} else {
-				m.pending[id] = &mirrorEntry{gen: m.gen, age: m.age, waiting: true}
-				m.wgen[id] = m.gen
-				m.gen++
-				m.age++
+				// mirror
+				m.register(id)
+				m.receive(id) // the second lookup (in receive) runs the discard rule again
+				trace = append(trace, c14Label{"start", id, 0})
 			}
-			m.phase[id] = "waiting"
-			m.clean() // the second lookup (in receive) runs the discard rule again
-			trace = append(trace, c14Label{"start", id, 0})
 			// the reply may have arrived first: the call takes it at once
 			if _, full := m.bufs[[2]int{id, m.wgen[id]}]; full {
 				delete(m.bufs, [2]int{id, m.wgen[id]})
@@ -171,22 +283,11 @@ func c14Scripted(ctx *Ctx, i int, rng *rand.Rand) {
 			if id >= nextID+1 {
 				continue
 			}
-			// enabled? (the channel must not already hold a message)
-			m.clean()
-			g := m.gen
-			if e, ok := m.pending[id]; ok {
-				g = e.gen
-			}
-			if _, full := m.bufs[[2]int{id, g}]; full {
+			p := 1000*id + rng.Intn(1000)
+			g, ok := m.deliver(id, p)
+			if !ok {
 				continue
 			}
-			if _, ok := m.pending[id]; !ok {
-				m.pending[id] = &mirrorEntry{gen: m.gen, age: m.age}
-				m.gen++
-				m.age++
-			}
-			p := 1000*id + rng.Intn(1000)
-			m.bufs[[2]int{id, g}] = p
 			raw, _ := json.Marshal(p)
 			idRaw, _ := json.Marshal(id)
 			codec.in <- &jsonrpc2.Message{Response: &jsonrpc2.Response{Result: raw}, ID: idRaw, Version: "2.0"}
@@ -256,7 +357,7 @@ func c14Scripted(ctx *Ctx, i int, rng *rand.Rand) {
 	delivered := map[int]bool{}
 	startedAt := map[int]int{}
 	for k, l := range trace {
-		if l.L == "start" {
+		if l.L == "start" || l.L == "register" {
 			startedAt[l.C] = k
 		}
 	}
@@ -296,6 +397,10 @@ func c14Scripted(ctx *Ctx, i int, rng *rand.Rand) {
 		switch l.L {
 		case "start":
 			ls = append(ls, "LStartWait "+cN(l.C))
+		case "register":
+			ls = append(ls, "LRegister "+cN(l.C))
+		case "receive":
+			ls = append(ls, "LReceive "+cN(l.C))
 		case "deliver":
 			ls = append(ls, fmt.Sprintf("LDeliver %s %s", cN(l.C), cN(l.P)))
 		case "wake":
